@@ -59,12 +59,12 @@ def run(mu):
     ls = list(lines); ls[k] = nl
     open(p, 'w').write('\n'.join(ls))
     try:
-        out = subprocess.run(['/verif/bin/govc', 'vc', '-overlay', '%s=%s' % (f, p), './' + a.pkg] + verify, capture_output=True, text=True, timeout=400, cwd='/verif')
+        out = subprocess.run(['/verif/bin/govc', 'vc', '-out', os.path.join(d, 'out'), '-overlay', '%s=%s' % (f, p), './' + a.pkg] + verify, capture_output=True, text=True, timeout=400, cwd='/verif')
         out = out.stdout + out.stderr
     except subprocess.TimeoutExpired:
         out = 'TIMEOUT'
     finally:
-        os.remove(p); os.rmdir(d)
+        import shutil; shutil.rmtree(d, ignore_errors=True)
     if 'load errors' in out or 'load:' in out or 'load error' in out: return (mu, 'nocompile')
     if 'FAIL' in out or 'ENGINE ERROR' in out or 'TIMEOUT' in out or 'no contract named' in out: return (mu, 'killed')
     if 'discharged' in out: return (mu, 'SURVIVED')
